@@ -350,7 +350,7 @@ func runC06(c *Ctx) {
 						split(be.Y, pos)
 						return
 					}
-					if be, ok := e.(*ast.BinaryExpr); ok && be.Op == token.LAND && pos {
+					if be, ok := e.(*ast.BinaryExpr); ok && ((be.Op == token.LAND && pos) || (be.Op == token.LOR && !pos)) {
 						// (enabled && pos > cur): both conjuncts are needed; look at each
 						split(be.X, pos)
 						split(be.Y, pos)
